@@ -291,7 +291,7 @@ type bZooIface interface{ zoo() }
 
 func TestVerif_C19_BuildTotality(t *testing.T) {
 	res := &verifResult{Check: "Build totality", Property: "C19", Exhaustive: true,
-		Bound: "tag soup: all atom sequences of length <= 3 (thorough: <= 4) over 32 atoms {@ @@ Ident Nope \"a\" 'b' 'cd' `e` '\"' '\\'' \"a\":Ident \"a\":Nope ( ) [ ] { } | ? * + ! ~ (?= (?! : = , 1 \"unterminated '}, each as one field, split over two fields, and with token-free (white space only) fields before, between and after, whole-tag and parser:\"...\" forms, field types string and *struct; every single-atom insertion / deletion / replacement of 14 valid tags; 48 field types (maps, channels, functions, interfaces, arrays, anonymous / recursive / left-recursive / self-embedding structs, self-referential and mutually referential slice and pointer types, Parseable with value and pointer receivers, Capture, TextUnmarshaler, lexer.Token) x 8 tags and as root types; 7 cases of misused options (nil union member, duplicate / empty / non-interface union, unknown token names)",
+		Bound: "tag soup: all atom sequences of length <= 3 (thorough: <= 4) over 32 atoms {@ @@ Ident Nope \"a\" 'b' 'cd' `e` '\"' '\\'' \"a\":Ident \"a\":Nope ( ) [ ] { } | ? * + ! ~ (?= (?! : = , 1 \"unterminated '}, each as one field, split over two fields, and with token-free (white space only) fields before, between and after, whole-tag and parser:\"...\" forms, field types string and *struct; every single-atom insertion / deletion / replacement of 14 valid tags; 48 field types (maps, channels, functions, interfaces, arrays, anonymous / recursive / left-recursive / self-embedding structs, self-referential and mutually referential slice and pointer types, Parseable with value and pointer receivers, Capture, TextUnmarshaler, lexer.Token) x 8 tags and as root types; 7 cases of misused options (nil union member, duplicate / empty / non-interface union, unknown token names); 288 raw tags in which a name is directly followed by a colon (at the end of the tag, before a quote, next to tags of other packages)",
 		Rule: "distinct (struct type, tag) inputs; non-trivial = the reference recogniser classifies the tag (valid, or one of the property's four rejection classes)"}
 	def := lexer.MustSimple([]lexer.SimpleRule{{Name: "Ident", Pattern: `[a-z]+`}, {Name: "Int", Pattern: `\d+`}, {Name: "Punct", Pattern: `[^\sa-z\d]`}, {Name: "Whitespace", Pattern: `\s+`}})
 	symbols := map[string]bool{"Ident": true, "Int": true, "Punct": true, "Whitespace": true, "EOF": true}
@@ -460,6 +460,24 @@ func TestVerif_C19_BuildTotality(t *testing.T) {
 			if i < len(v) && len(v) > 1 {
 				del := append(append([]string{}, v[:i]...), v[i+1:]...)
 				trySeq(del, true)
+			}
+		}
+	}
+
+	// raw tags written without blanks between the atoms: a name directly followed by a colon, at the end of the tag
+	// and before other entries, with and without tags of other packages around it
+	for _, head := range []string{"", `json:"b" `, `parser:"" `, `yaml:"y,omitempty" json:"-" `} {
+		for _, name := range []string{"Nope", "Ident", "unknown", "a", "json", "parser", "@Ident", `"x"`} {
+			for _, tail := range []string{":", `:"`, `:"x`, `:"x"`, `: "x"`, "::", `:\`, ":Ident", ":Nope:"} {
+				raw := head + name + tail
+				res.Evaluations++
+				res.Distinct++
+				n, err, panicked := bBuild(bStruct(bStringType, raw), def)
+				if panicked != nil {
+					res.violate("raw tag `%s`: Build panics: %v", raw, panicked)
+				} else if (n == nil) == (err == nil) {
+					res.violate("raw tag `%s`: Build returns node %v and error %v", raw, n, err)
+				}
 			}
 		}
 	}
